@@ -140,6 +140,54 @@ impl<'a> TyVisitor for VProg<'a> {
     }
 }
 
+/// single operations on stratified real parts (incl. the large / tiny strata of C01): the real part
+/// is independent of the derivative parts and equals the float function to a few ulp
+struct VSingle<'a> {
+    case: &'a Case,
+    st: &'a mut Stats,
+}
+impl<'a> TyVisitor for VSingle<'a> {
+    type Out = Verdict;
+    fn visit<T>(self, dims: &[usize]) -> Verdict
+    where
+        T: Ty + DualNum<<T as Ty>::F>,
+    {
+        let case = self.case;
+        let lay = T::layout(dims);
+        let is32 = <T::F as Flt>::IS32;
+        let fi = case.fun as usize % 22;
+        let f = UNARY[fi];
+        let u = case.pv.abs().fract();
+        let x0 = round_to::<T::F>(crate::c01::real_part(fi, is32, case.pc, u));
+        let pc = &case.prog;
+        let fa = make_flat::<T::F>(&lay, x0, &pc.parts[0], &pc.pres[0], &pc.zero);
+        let fb = make_flat::<T::F>(&lay, x0, &case.parts_b[0], &case.pres_b[0], &[false]);
+        let ra = apply_un::<T, T::F>(f, &T::from_flat(dims, &fa)).re().to64();
+        let rb = apply_un::<T, T::F>(f, &T::from_flat(dims, &fb)).re().to64();
+        let rf = apply_un::<T::F, T::F>(f, &<T::F as Flt>::from64(x0)).to64();
+        if ra.to_bits() != rb.to_bits() && !(ra.is_nan() && rb.is_nan()) {
+            return Verdict::Fail {
+                sig: format!("C06/real-part-depends-on-parts/{}", f.name()),
+                why: format!("{}: {}({:e}) has real part {:e} with parts A but {:e} with parts B; A = {}, B = {}", T::tname(dims), f.name(), x0, ra, rb, flat_json(&lay, &fa), flat_json(&lay, &fb)),
+            };
+        }
+        if !rf.is_finite() {
+            return Verdict::Trivial("float function not finite");
+        }
+        // a few units in the last place (tan, tanh are quotients of two functions)
+        let ulps = if matches!(f, Fun::Tan | Fun::Tanh) { 16.0 } else { 8.0 };
+        let tol = ulps * <T::F as Flt>::U * rf.abs() + <T::F as Flt>::FLOOR;
+        if !((ra - rf).abs() <= tol) {
+            return Verdict::Fail {
+                sig: format!("C06/real-part-vs-float/{}", f.name()),
+                why: format!("{}: {}({:e}) has real part {:e} but the plain {} function gives {:e} (tolerance {:e})", T::tname(dims), f.name(), x0, ra, <T::F as Flt>::NAME, rf, tol),
+            };
+        }
+        self.st.class(&format!("single:{}{}", f.name(), if is32 { "/f32" } else { "" }));
+        Verdict::Pass { nontrivial: (1..fa.vals.len()).filter(|i| fa.vals[*i] != fb.vals[*i]).count() >= 1 }
+    }
+}
+
 /// predicates that exist on every type
 struct VPred<'a> {
     case: &'a Case,
@@ -258,6 +306,12 @@ impl<'a> TyVisitorField for VField<'a> {
         same!(">", a > b, xa > xb);
         same!(">=", a >= b, xa >= xb);
         same!("partial_cmp", a.partial_cmp(&b), xa.partial_cmp(&xb));
+        // the approx traits decide by the real part as well (default tolerances of the float)
+        if ra.is_finite() && rb.is_finite() {
+            same!("abs_diff_eq", approx::AbsDiffEq::abs_diff_eq(&a, &b, <T as approx::AbsDiffEq>::default_epsilon()), approx::AbsDiffEq::abs_diff_eq(&xa, &xb, <T::F as approx::AbsDiffEq>::default_epsilon()));
+            same!("relative_eq", approx::RelativeEq::relative_eq(&a, &b, <T as approx::AbsDiffEq>::default_epsilon(), <T as approx::RelativeEq>::default_max_relative()), approx::RelativeEq::relative_eq(&xa, &xb, <T::F as approx::AbsDiffEq>::default_epsilon(), <T::F as approx::RelativeEq>::default_max_relative()));
+            same!("ulps_eq", approx::UlpsEq::ulps_eq(&a, &b, <T as approx::AbsDiffEq>::default_epsilon(), 4), approx::UlpsEq::ulps_eq(&xa, &xb, <T::F as approx::AbsDiffEq>::default_epsilon(), 4));
+        }
         // selection decides like the floats (the selected operand's own parts are C11)
         if !ra.is_nan() && !rb.is_nan() {
             let mx = nalgebra::RealField::max(a.clone(), b.clone()).re().to64();
@@ -362,7 +416,7 @@ impl Property for C06 {
     const ID: &'static str = "C06";
     fn strategy(tier: Tier) -> BoxedStrategy<Case> {
         (
-            prop_oneof![6 => Just(0u8), 3 => Just(1u8), 1 => Just(2u8)],
+            prop_oneof![6 => Just(0u8), 3 => Just(1u8), 1 => Just(2u8), 4 => Just(3u8)],
             c03::case_strategy(if tier == Tier::Quick { 10 } else { 24 }),
             proptest::collection::vec(parts_pool(), 3),
             proptest::collection::vec(proptest::collection::vec(proptest::bool::weighted(0.75), 8), 3),
@@ -376,7 +430,7 @@ impl Property for C06 {
             return Verdict::Trivial("malformed case");
         }
         let dims = [case.dims.0 as usize, case.dims.1 as usize];
-        match case.kind % 3 {
+        match case.kind % 4 {
             0 => {
                 st.class("kind:program (metamorphic + float differential)");
                 dispatch(case.ty, &dims, VProg { case, st })
@@ -395,7 +449,11 @@ impl Property for C06 {
                     other => other,
                 }
             }
-            _ => std_equivalence(case, st),
+            2 => std_equivalence(case, st),
+            _ => {
+                st.class("kind:single operation on stratified real parts");
+                dispatch(case.ty, &dims, VSingle { case, st })
+            }
         }
     }
     fn cases(tier: Tier) -> u64 {
@@ -405,7 +463,7 @@ impl Property for C06 {
         }
     }
     fn rule() -> String {
-        "three generated checks. (1) metamorphic: a generated program (as C03) is evaluated twice on every type with the same real inputs and two independent assignments of all derivative parts (one third: all parts absent/zero): re() of EVERY node must be bit-identical; (2) differential: the same program on plain f32/f64 through the generic interface, every node's real part within 32 u e (single operations 8 u e) of the float result; the plain-float instances themselves against the std methods bit for bit (mul_add fused, powd = powf, ...); (3) pairs (a, b) with real parts from {equal, adjacent floats, +-0, +-inf, NaN, 0, 1, random} and arbitrary parts: == != < <= > >= partial_cmp on the field-compatible types and min/max/clamp decide like the floats; on every type is_zero, is_one, is_positive, is_negative, abs, signum (away from exact zeros), abs_sub decide by the real part. Non-trivial: the two assignments differ in >= 2 parts / the compared pair has equal or adjacent real parts but different parts.".into()
+        "four generated checks. (0) single operations: every unary function on the stratified real parts of C01 (negative, tiny, large, f32 ranges) with two independent part assignments: real part bit-identical and within 4 ulp (tan, tanh 8 ulp) of the plain float function; (1) metamorphic: a generated program (as C03) is evaluated twice on every type with the same real inputs and two independent assignments of all derivative parts (one third: all parts absent/zero): re() of EVERY node must be bit-identical; (2) differential: the same program on plain f32/f64 through the generic interface, every node's real part within 32 u e (single operations 8 u e) of the float result; the plain-float instances themselves against the std methods bit for bit (mul_add fused, powd = powf, ...); (3) pairs (a, b) with real parts from {equal, adjacent floats, +-0, +-inf, NaN, 0, 1, random} and arbitrary parts: == != < <= > >= partial_cmp on the field-compatible types and min/max/clamp decide like the floats; on every type is_zero, is_one, is_positive, is_negative, abs, signum (away from exact zeros), abs_sub decide by the real part. Non-trivial: the two assignments differ in >= 2 parts / the compared pair has equal or adjacent real parts but different parts.".into()
     }
     fn assumptions() -> Vec<String> {
         vec!["signum at exact zeros is outside the property (discontinuity)".into()]
